@@ -582,7 +582,15 @@ func (tg *txnGen) spoil(ops []TOp) []TOp {
 	g := tg.g
 	i := g.Intn(len(ops))
 	t := tg.sc.Table(ops[i].Table)
-	switch g.Intn(9) {
+	switch g.Intn(12) {
+	case 9, 10: // unknown table: the operation fails where it stands, after the results of the operations before it
+		ops[i] = TOp{Kind: []string{"select", "delete", "insert"}[g.Intn(3)], Table: "Nope", Row: map[string]val.Val{}, Where: []Cond{}}
+	case 11: // two inserts under one uuid-name (each has its own uuid): the second is at fault
+		a := TOp{Kind: "insert", Table: t.Name, UUID: tg.fresh(), Name: "dupname", Row: map[string]val.Val{}}
+		b := TOp{Kind: "insert", Table: t.Name, UUID: tg.fresh(), Name: "dupname", Row: map[string]val.Val{}}
+		rest := append([]TOp{}, ops[i:]...)
+		ops = append(append(ops[:i:i], a), rest...)
+		ops = append(ops, b)
 	case 7, 8: // operations that all succeed and move references, then a rejection at commit time (duplicate index value)
 		if extra := tg.commitReject(); len(extra) > 0 {
 			return extra
